@@ -60,7 +60,9 @@ func (b *nftBackend) realChain(a string) string {
 
 func nftRender(chain string, r rule) *knftables.Rule {
 	s := fmt.Sprintf("meta l4proto %d counter", r.ID)
-	if r.Tgt != "" {
+	if strings.HasPrefix(r.Tgt, "@") {
+		s = fmt.Sprintf("meta l4proto %d iifname vmap %s", r.ID, r.Tgt)
+	} else if r.Tgt != "" {
 		s += " jump " + r.Tgt
 	} else {
 		s += " accept"
@@ -76,6 +78,7 @@ func nftRender(chain string, r rule) *knftables.Rule {
 var (
 	nftIDRe   = regexp.MustCompile(`l4proto (\d+)`)
 	nftJumpRe = regexp.MustCompile(`(?:jump|goto) (\S+)`)
+	nftVmapRe = regexp.MustCompile(`vmap (@\S+)`)
 )
 
 func nftParse(r *knftables.Rule) rule {
@@ -92,6 +95,9 @@ func nftParse(r *knftables.Rule) rule {
 	if m := nftJumpRe.FindStringSubmatch(r.Rule); m != nil {
 		out.Tgt = m[1]
 	}
+	if m := nftVmapRe.FindStringSubmatch(r.Rule); m != nil {
+		out.Tgt = m[1]
+	}
 	return out
 }
 
@@ -99,10 +105,16 @@ func nftRules(bs []body) []generictables.Rule {
 	out := []generictables.Rule{}
 	for _, x := range bs {
 		var a generictables.Action = nftables.AcceptAction{}
-		if x.Tgt != "" {
+		m := nftables.Match().ProtocolNum(uint8(x.ID))
+		if strings.HasPrefix(x.Tgt, "@") {
+			// "@<layer>-<name>": a verdict-map lookup, as the workload dispatch chains do
+			parts := strings.SplitN(x.Tgt[1:], "-", 2)
+			m = m.(nftables.NFTMatchCriteria).SetLayer(parts[0]).InInterfaceVMAP(parts[1])
+			a = nil
+		} else if x.Tgt != "" {
 			a = nftables.JumpAction{Target: x.Tgt}
 		}
-		out = append(out, generictables.Rule{Match: nftables.Match().ProtocolNum(uint8(x.ID)), Action: a})
+		out = append(out, generictables.Rule{Match: m, Action: a})
 	}
 	return out
 }
@@ -150,6 +162,84 @@ func (b *nftBackend) setApp(chain string, rules []body)  { b.table.AppendRules(c
 func (b *nftBackend) tick()                              { b.now = b.now.Add(refreshInterval + time.Second) }
 func (b *nftBackend) setHooks(preRead, preWrite func()) { b.preRead, b.preWrite = preRead, preWrite }
 func (b *nftBackend) failWrites(n int)                   { b.runErrors = n }
+
+// ---- verdict maps ---------------------------------------------------------------------------------------
+
+func (b *nftBackend) setMap(name string, members []mapMember) {
+	ms := map[string][]string{}
+	for _, m := range members {
+		ms[m.K] = []string{"goto " + m.Tgt} // the form rules.DispatchMappings produces
+	}
+	b.table.AddOrReplaceMap(nftables.MapMetadata{Name: name, Type: nftables.MapTypeInterfaceMatch}, ms)
+}
+
+func (b *nftBackend) removeMap(name string) { b.table.RemoveMap(name) }
+
+func (b *nftBackend) kmaps() kmapsT {
+	out := kmapsT{}
+	b.fake.RLock()
+	defer b.fake.RUnlock()
+	if b.fake.Table == nil {
+		return out
+	}
+	for name, m := range b.fake.Table.Maps {
+		ms := []mapMember{}
+		for _, e := range m.Elements {
+			mm := mapMember{}
+			if len(e.Key) > 0 {
+				mm.K = e.Key[0]
+			}
+			if len(e.Value) > 0 {
+				mm.Tgt = strings.TrimPrefix(strings.TrimPrefix(e.Value[0], "goto "), "jump ")
+			}
+			ms = append(ms, mm)
+		}
+		sort.Slice(ms, func(i, j int) bool { return ms[i].K < ms[j].K })
+		out[name] = ms
+	}
+	return out
+}
+
+func (b *nftBackend) setKernelMap(name string, members []mapMember, present bool) {
+	b.ensureTable()
+	b.fake.Lock()
+	defer b.fake.Unlock()
+	t := b.fake.Table
+	if !present {
+		delete(t.Maps, name)
+		return
+	}
+	fm := &knftables.FakeMap{Map: knftables.Map{Name: name, Type: "ifname : verdict"}}
+	if old := t.Maps[name]; old != nil {
+		fm.Map = old.Map
+	}
+	for _, m := range members {
+		fm.Elements = append(fm.Elements, &knftables.Element{Map: name, Key: []string{m.K}, Value: []string{"goto " + m.Tgt}})
+	}
+	t.Maps[name] = fm
+}
+
+// delTable: `nft delete table ip calico` by somebody else
+func (b *nftBackend) delTable() {
+	if b.fake.Table == nil {
+		return
+	}
+	tx := b.fake.NewTransaction()
+	tx.Delete(&knftables.Table{})
+	if err := b.fake.Run(context.Background(), tx); err != nil {
+		panic(err)
+	}
+}
+
+func (b *nftBackend) ensureTable() {
+	if b.fake.Table == nil {
+		tx := b.fake.NewTransaction()
+		tx.Add(&knftables.Table{})
+		if err := b.fake.Run(context.Background(), tx); err != nil {
+			panic(err)
+		}
+	}
+}
 func (b *nftBackend) failReads(n int)                    { b.listErrors = n }
 func (b *nftBackend) clearFailures()                     { b.runErrors, b.listErrors = 0, 0 }
 
@@ -181,13 +271,7 @@ func (b *nftBackend) kernel() kernelT {
 
 // setKernelChain edits the fake's table directly (other software writing to the kernel).
 func (b *nftBackend) setKernelChain(chain string, rules []rule, present bool) {
-	if b.fake.Table == nil {
-		tx := b.fake.NewTransaction()
-		tx.Add(&knftables.Table{})
-		if err := b.fake.Run(context.Background(), tx); err != nil {
-			panic(err)
-		}
-	}
+	b.ensureTable()
 	b.fake.Lock()
 	defer b.fake.Unlock()
 	t := b.fake.Table
